@@ -48,22 +48,38 @@ const ATOM_CACHE_SIZE: usize = 256;
 
 #[derive(Debug, Clone)]
 pub struct AtomCache {
-    atoms: HashMap<u8, Atom>,
+    /// Keyed by the cache slot: segment index (3 bits) << 8 | internal segment index.
+    atoms: HashMap<u16, Atom>,
+    /// Slots named by the distribution header of the message being decoded, by position.
+    /// An ATOM_CACHE_REF in that message carries a position in this list.
+    header_refs: Option<Vec<u16>>,
 }
 
 impl AtomCache {
     pub fn new() -> Self {
         Self {
             atoms: HashMap::with_capacity(ATOM_CACHE_SIZE),
+            header_refs: None,
         }
     }
 
     pub fn insert(&mut self, index: u8, atom: Atom) {
-        self.atoms.insert(index, atom);
+        self.atoms.insert(index as u16, atom);
     }
 
     pub fn get(&self, index: u8) -> Option<&Atom> {
-        self.atoms.get(&index)
+        self.atoms.get(&(index as u16))
+    }
+
+    /// Resolves an ATOM_CACHE_REF: through the current distribution header if there is one,
+    /// as a slot of segment 0 otherwise.
+    fn resolve(&self, reference: u8) -> Option<&Atom> {
+        match &self.header_refs {
+            Some(refs) => refs
+                .get(reference as usize)
+                .and_then(|slot| self.atoms.get(slot)),
+            None => self.get(reference),
+        }
     }
 
     pub fn len(&self) -> usize {
@@ -240,6 +256,7 @@ fn parse_versioned_term_with_cache<'a>(
     if tag == DIST_HEADER {
         parse_dist_header_with_cache(input, cache)
     } else {
+        cache.header_refs = None;
         parse_term_from_tag(input, tag, cache)
     }
 }
@@ -291,7 +308,7 @@ fn parse_term_from_tag<'a>(
         LOCAL_EXT => parse_local_ext(input, cache),
         ATOM_CACHE_REF => {
             let (input, cache_index) = be_u8(input)?;
-            if let Some(atom) = cache.get(cache_index) {
+            if let Some(atom) = cache.resolve(cache_index) {
                 log::debug!(
                     "Found ATOM_CACHE_REF index {} -> '{}'",
                     cache_index,
@@ -549,7 +566,9 @@ fn parse_dist_header_with_cache<'a>(
 ) -> NomResult<'a, OwnedTerm> {
     let (input, num_atom_cache_refs) = be_u8(input)?;
 
+    let mut header_refs = Vec::with_capacity(num_atom_cache_refs as usize);
     if num_atom_cache_refs == 0 {
+        cache.header_refs = Some(header_refs);
         return parse_term(input, cache);
     }
 
@@ -573,6 +592,8 @@ fn parse_dist_header_with_cache<'a>(
         };
 
         let is_new_entry = (flag_nibble & 0x08) != 0;
+        let slot = ((flag_nibble & 0x07) as u16) << 8 | internal_segment_index as u16;
+        header_refs.push(slot);
 
         if is_new_entry {
             let (new_input, atom_len) = if long_atoms {
@@ -593,11 +614,12 @@ fn parse_dist_header_with_cache<'a>(
                 atom_str,
                 internal_segment_index
             );
-            cache.insert(internal_segment_index, Atom::new(atom_str));
+            cache.atoms.insert(slot, Atom::new(atom_str));
             input = new_input;
         }
     }
 
+    cache.header_refs = Some(header_refs);
     parse_term(input, cache)
 }
 
